@@ -2,10 +2,12 @@
 # offline setup: parse every specification module, build the driver once
 cd "$(dirname "$0")/.." || exit 2
 rc=0
+T=$(mktemp -d /tmp/vsetup.XXXXXX)          # SANY unpacks its standard modules into java.io.tmpdir: removed at the end
 for f in spec/*.tla; do
-  ( cd spec && java -cp /opt/veriftools/tla/tla2tools.jar:/opt/veriftools/tla/CommunityModules-deps.jar tla2sany.SANY "$(basename "$f")" >/tmp/vsany.$$ 2>&1 ) || { cat /tmp/vsany.$$; rc=2; }
+  ( cd spec && java -Djava.io.tmpdir="$T" -cp /opt/veriftools/tla/tla2tools.jar:/opt/veriftools/tla/CommunityModules-deps.jar tla2sany.SANY "$(basename "$f")" >/tmp/vsany.$$ 2>&1 ) || { cat /tmp/vsany.$$; rc=2; }
   if grep -q "Fatal errors\|\*\*\* Errors" /tmp/vsany.$$; then echo "SANY: $f"; cat /tmp/vsany.$$; rc=2; fi
 done
 rm -f /tmp/vsany.$$
+rm -rf "$T"
 python3 tools/vlib/build.py asan || rc=2
 exit $rc
